@@ -8,6 +8,14 @@ import (
 func genRootFen(rng *PRNG, terminalPct int) (string, []string, *rules.Pos) {
 	if rng.Intn(100) < terminalPct {
 		tr := TerminalRoots[rng.Intn(len(TerminalRoots))]
+		if rng.Intn(100) < 25 {
+			// the mating (or stalemating) move was the 100th half move without
+			// capture or pawn move: the game has ended by that move, not by the clock
+			p := rules.MustFen(tr.Fen)
+			p.HalfMove = rng.Range(100, 130)
+			p.FullMove = rng.Range(80, 150)
+			return p.Fen(), nil, p
+		}
 		return tr.Fen, nil, rules.MustFen(tr.Fen)
 	}
 	fen := Corpus[rng.Intn(len(Corpus))]
